@@ -144,6 +144,13 @@ class Server(object):
                 ex = sys.exc_info()[1]
                 if get_exc_errno(ex) in (errno.EINTR, errno.EAGAIN):
                     pass
+                elif self.active and get_exc_errno(ex) not in (errno.EBADF, errno.EINVAL, errno.ENOTSOCK):
+                    # a failed accept is not the end of the server: the process is out of descriptors or
+                    # buffers right now (EMFILE, ENFILE, ENOBUFS, ENOMEM), or the network reported an error
+                    # for one incoming connection (ECONNABORTED, EPROTO, ...). Log it, give way for a
+                    # moment (the condition may last) and go on; only a listener that is gone ends the loop
+                    self.logger.warning("accept failed: %s", ex)
+                    time.sleep(0.1)
                 else:
                     raise EOFError()
             else:
